@@ -641,7 +641,7 @@ type c12MirCase struct {
 	Ty    string `json:"ty"`
 	Val   string `json:"val"`
 	HName string `json:"hname"`
-	Sib   bool   `json:"sib"`
+	NSib  int    `json:"nsib"` // further annotated properties next to the annotated one (same parent object), all with different values
 }
 
 type c12MirOut struct {
@@ -651,6 +651,8 @@ type c12MirOut struct {
 	Code     int    `json:"code"`     // JSON-RPC error code returned to the caller (0 = none)
 	Hdr      string `json:"hdr"`      // what the client emitted for the annotated parameter: none|empty|raw|b64
 	Sent     bool   `json:"sent"`     // a tools/call request for this tool reached the wire
+	Own      bool   `json:"own"`      // the header the client sent for the parameter decodes to that parameter's own body value
+	SibOK    bool   `json:"sibok"`    // every sibling's header decodes to that sibling's own value, and the handler saw each sibling unaltered
 }
 
 type c12MirLine struct {
@@ -670,6 +672,36 @@ type c12MirJob struct {
 	absent bool
 	args   map[string]any
 	schema map[string]any
+	sibs   []c12Sib
+}
+
+type c12Sib struct {
+	name, header string
+	val          any
+}
+
+// c12HeaderText is the canonical text of a primitive argument value (what its header must decode to).
+func c12HeaderText(v any) (string, bool) {
+	switch x := v.(type) {
+	case string:
+		return x, true
+	case bool:
+		return strconv.FormatBool(x), true
+	case int64:
+		return strconv.FormatInt(x, 10), true
+	}
+	return "", false
+}
+
+// c12Decode undoes the =?base64?...?= wrapper of a received field value.
+func c12Decode(h string) (string, bool) {
+	if enc, ok := strings.CutPrefix(h, "=?base64?"); ok {
+		if enc, ok = strings.CutSuffix(enc, "?="); ok {
+			b, err := base64.StdEncoding.DecodeString(enc)
+			return string(b), err == nil
+		}
+	}
+	return h, true
 }
 
 func c12Value(r *rand.Rand, ty, cls string) (val any, absent bool) {
@@ -762,52 +794,72 @@ func c12MirJobFor(r *rand.Rand, c c12MirCase, rep, idx int) *c12MirJob {
 	case "special":
 		j.header = c12Pick(r, "x_Y.z~1", "A!b#c$d%e&f'g*h+i", "UPPER-lower-09", "a^b`c|d", "9")
 	}
-	names := []string{"p", "outer", "mid", "in.ner", "Ünï", "x y"}
+	names := []string{"p", "outer", "mid", "in.ner", "Ünï", "x y", "l6", "Seven", "h_8", "n-9"}
 	r.Shuffle(len(names), func(a, b int) { names[a], names[b] = names[b], names[a] })
 	j.path = names[:c.Depth]
 	j.val, j.absent = c12Value(r, c.Ty, c.Val)
-	// schema: nested objects down to the annotated primitive
+	// siblings: annotated properties in the same object as the annotated one, each with a value of its own
+	ownText, _ := c12HeaderText(j.val)
+	used := map[string]bool{ownText: true}
+	for i := 1; i <= c.NSib; i++ {
+		sb := c12Sib{name: fmt.Sprintf("sib%d%s", i, c12Pick(r, "", "_x", "-Y")), header: fmt.Sprintf("%s%d-%d", c12Pick(r, "Sib", "sib", "Tenant"), i, r.IntN(10))}
+		for {
+			switch r.IntN(3) {
+			case 0:
+				sb.val = fmt.Sprintf("sv%d-%d", i, r.IntN(1000000))
+			case 1:
+				sb.val = int64(r.IntN(1000000)) - 500000
+			default:
+				sb.val = c12Pick(r, "acme", "eu-west1", "blue", "x y z") + strconv.Itoa(i)
+			}
+			if txt, _ := c12HeaderText(sb.val); !used[txt] {
+				used[txt] = true
+				break
+			}
+		}
+		j.sibs = append(j.sibs, sb)
+	}
+	// schema: nested objects down to the annotated primitive (and its siblings)
 	leaf := map[string]any{"type": c.Ty, "x-mcp-header": j.header}
 	if r.IntN(2) == 0 {
 		leaf["description"] = "mirrored into a header"
 	}
-	node := leaf
-	for i := c.Depth - 1; i >= 1; i-- {
-		props := map[string]any{j.path[i]: node}
-		if r.IntN(2) == 0 {
-			props["unrelated"] = map[string]any{"type": "string"}
-		}
-		node = map[string]any{"type": "object", "properties": props}
-	}
-	top := map[string]any{j.path[0]: node, "marker": map[string]any{"type": "string"}}
-	if c.Sib {
-		top["sib"] = map[string]any{"type": "string", "x-mcp-header": "Sib-" + strconv.Itoa(r.IntN(10))}
-	}
-	j.schema = map[string]any{"type": "object", "properties": top}
-	// arguments
-	j.args = map[string]any{"marker": "mk-" + j.tool}
-	if c.Sib {
-		j.args["sib"] = c12Pick(r, "s1", "sib value", "sïb")
-	}
-	merge := func(cur any) {
-		for k, v := range cur.(map[string]any) {
-			j.args[k] = v
-		}
-	}
+	parentProps := map[string]any{j.path[c.Depth-1]: leaf}
+	parentArgs := map[string]any{}
 	if !j.absent {
-		var cur any = j.val
-		for i := c.Depth - 1; i >= 0; i-- {
-			cur = map[string]any{j.path[i]: cur}
-		}
-		merge(cur)
-	} else if cut := r.IntN(c.Depth); cut > 0 {
-		// the first cut enclosing objects are present, the rest of the path (at least the leaf) is missing
-		var cur any = map[string]any{}
-		for i := cut - 1; i >= 0; i-- {
-			cur = map[string]any{j.path[i]: cur}
-		}
-		merge(cur)
+		parentArgs[j.path[c.Depth-1]] = j.val
 	}
+	for _, sb := range j.sibs {
+		ty := "string"
+		if _, isInt := sb.val.(int64); isInt {
+			ty = "integer"
+		}
+		parentProps[sb.name] = map[string]any{"type": ty, "x-mcp-header": sb.header}
+		parentArgs[sb.name] = sb.val
+	}
+	props := parentProps
+	for i := c.Depth - 2; i >= 0; i-- {
+		up := map[string]any{j.path[i]: map[string]any{"type": "object", "properties": props}}
+		if r.IntN(2) == 0 {
+			up["unrelated"] = map[string]any{"type": "string"}
+		}
+		props = up
+	}
+	// arguments: by default every enclosing object is sent; an absent parameter without siblings may also lose
+	// some of its enclosing objects (only the first cut of them are sent, the innermost one empty)
+	args, wrapFrom := parentArgs, c.Depth-2
+	if j.absent && c.NSib == 0 {
+		if cut := r.IntN(c.Depth); cut < c.Depth-1 {
+			args, wrapFrom = map[string]any{}, cut-1
+		}
+	}
+	for i := wrapFrom; i >= 0; i-- {
+		args = map[string]any{j.path[i]: args}
+	}
+	props["marker"] = map[string]any{"type": "string"}
+	j.schema = map[string]any{"type": "object", "properties": props}
+	j.args = args
+	j.args["marker"] = "mk-" + j.tool
 	return j
 }
 
@@ -911,6 +963,22 @@ func c12MirChunk(t *testing.T, jobs []*c12MirJob, enc *json.Encoder) {
 			sv, sok := c12Lookup(c12Canon(j.args), j.path)
 			out.Same = gok == sok && reflect.DeepEqual(gv, sv)
 		}
+		out.Own, out.SibOK = true, true
+		sibPath := func(sb c12Sib) []string { return append(append([]string{}, j.path[:len(j.path)-1]...), sb.name) }
+		if handlerRan {
+			var gotArgs any
+			d := json.NewDecoder(bytes.NewReader(g.args))
+			d.UseNumber()
+			d.Decode(&gotArgs)
+			for _, sb := range j.sibs {
+				gv, gok := c12Lookup(gotArgs, sibPath(sb))
+				sv, _ := c12Lookup(c12Canon(j.args), sibPath(sb))
+				if !gok || !reflect.DeepEqual(gv, sv) {
+					out.SibOK = false
+					conc["sibling-altered"] = sb.name
+				}
+			}
+		}
 		rt.mu.Lock()
 		for _, s := range rt.sent[base:] {
 			if s.Header.Get("Mcp-Method") != "tools/call" || s.Header.Get("Mcp-Name") != j.tool {
@@ -930,6 +998,21 @@ func c12MirChunk(t *testing.T, jobs []*c12MirJob, enc *json.Encoder) {
 			}
 			if present {
 				conc["sent"] = strings.Join(vals, " | ")
+				if want, prim := c12HeaderText(j.val); prim && !j.absent {
+					if got, ok := c12Decode(vals[0]); len(vals) != 1 || !ok || got != want {
+						out.Own = false
+					}
+				} else if strings.Join(vals, "") != "" {
+					out.Own = false // a value for a parameter that has none
+				}
+			}
+			for _, sb := range j.sibs {
+				want, _ := c12HeaderText(sb.val)
+				sv := s.Header[http.CanonicalHeaderKey("Mcp-Param-"+sb.header)]
+				if got, ok := c12Decode(strings.Join(sv, " | ")); len(sv) != 1 || !ok || got != want {
+					out.SibOK = false
+					conc["sibling-header"] = fmt.Sprintf("Mcp-Param-%s=%q for %s=%q", sb.header, strings.Join(sv, " | "), sb.name, want)
+				}
 			}
 		}
 		rt.mu.Unlock()
